@@ -574,7 +574,9 @@ def WM.applyPack (w : WM) (pack : List Cmd) : WM × List Cb :=
     match start with
     | none => (w, [])              -- target not alive at this point: the whole pack is skipped
     | some (w, initial0, sh) =>
-      let initial := closedMask w.deps initial0
+      -- a creation goes through an archetype lookup (closed set); an existing entity starts from the set it really
+      -- has: its archetype may predate a dependency declaration
+      let initial := if isCreate then closedMask w.deps initial0 else initial0
       let body := if isCreate then rest else pack
       let step := fun (acc : WM × PackSt × List Cb) (c : Cmd) =>
         let (w, p, cbs) := acc
@@ -588,7 +590,7 @@ def WM.applyPack (w : WM) (pack : List Cmd) : WM × List Cb :=
         | .remove _ c =>
           if p.final.contains c then
             let next := closedMask w.deps (Mask.erase p.final c)
-            if next.contains c then acc
+            if next.contains c then (w, { p with final := next }, cbs)
             else (w, { p with final := next, replaced := Mask.insert p.replaced c, src := p.src.filter (·.1 != c) }, cbs)
           else acc
         | .assign _ c v =>
